@@ -261,8 +261,10 @@ DialViol(ip, port, sw, self, conn, banned) ==
     IF port = 0 THEN "C18.contact.dial.port0"
     ELSE IF <<ip, port>> \in self THEN "C18.contact.dial.self"
     ELSE IF sw.out /\ Blocked(ip, rules) THEN "C18.contact.dial.blocked"
-    ELSE IF ip \in conn THEN "C18.contact.dial.dup"
+    \* (banned first: a ban is for good - `banned` only grows, also across stop / start / verify of the torrent - while the
+    \* scripted side may notice the end of its own connection with that IP a moment late)
     ELSE IF ip \in banned THEN "C18.contact.dial.banned"
+    ELSE IF ip \in conn THEN "C18.contact.dial.dup"
     ELSE ""
 
 \* @obligation C18.contact.accept.blocked  with the blocklist enabled for incoming connections a blocked address gets no handshake answer
